@@ -332,6 +332,9 @@ func c20Gen(tp *Tapes) *c20Spec {
 					c = c20SecondContent(file, nv, false)
 				} else {
 					c = c20TopContent(file, nv, ed, sp.HasInc[ni], sp.second(ni), false)
+					if g.Draw(6) == 0 {
+						c = "" // the file is there and holds nothing: a template like any other
+					}
 				}
 				disks[ed].Files[file] = append(vers, FileVer{Content: c})
 			}
@@ -971,6 +974,9 @@ func (c20Checker) Run(tp *Tapes, opt RunOpt) *Outcome {
 					exp = fmt.Sprintf("(basev%d:%s)", incVer, exp)
 				} else if sp.HasInc[op.Name] {
 					exp += fmt.Sprintf("(inc%dv%d)", op.Name, incVer)
+				}
+				if topVer >= 0 && w.disks[topDisk].spec.Files[sp.Names[op.Name]][topVer].Content == "" {
+					exp = "" // an empty file renders nothing (and pulls nothing in)
 				}
 				nGets := len(w.Gets)
 				// two executions the engine rejects up front (invalid key, clash with an exported
